@@ -71,19 +71,29 @@ def merge_second_process(t1, t2, out):
 
 
 def judge(ctx, behs, opts, name, expect=None, two_processes=True):
+    """Chunked so that one monitor run stays below ~25 000 events."""
+    per = max(1, 25000 // max(1, (sum(7 * len(b) + 1 for b in behs) // max(1, len(behs)))))
+    last = None
+    for i in range(0, len(behs), per):
+        last = judge1(ctx, behs[i:i + per], opts, name if i == 0 else "%s_%d" % (name, i // per),
+                      expect if i == 0 else None, two_processes)
+    return last
+
+
+def judge1(ctx, behs, opts, name, expect=None, two_processes=True):
     if not behs:
         return None
     bpath = ctx.path("behaviours_%s.ndjson" % name)
     vlib.write_ndjson(bpath, behs)
     t1 = ctx.path("trace_%s.ndjson" % name)
-    info = ctx.drive("blockexec", t1, behaviours=bpath, opts=dict(opts, k=3))
+    info = ctx.drive("blockexec", t1, behaviours=bpath, opts=dict(opts, k=3), timeout=2400)
     trace = t1
     if two_processes:
         t2 = ctx.path("trace_%s_p2.ndjson" % name)
         seed = ctx.seed
         ctx.seed = seed + 1000          # other shuffles in the second process
         try:
-            ctx.drive("blockexec", t2, behaviours=bpath, opts=dict(opts, k=1))
+            ctx.drive("blockexec", t2, behaviours=bpath, opts=dict(opts, k=1), timeout=2400)
         finally:
             ctx.seed = seed
         trace = ctx.path("trace_%s_merged.ndjson" % name)
@@ -154,12 +164,12 @@ def run(ctx):
     g1 = ctx.tlc_must("BlockExec", cfg(dict(BE, MaxBlocks=2 if quick else 3, GenMode='"leaf"'), "G"), name="G1_programs", timeout=2400)
     progs = [v["h"] for v in g1.printed if isinstance(v, dict) and v.get("kind") == "B"]
     rnd.shuffle(progs)
-    small += progs[:250 if quick else 4000]
+    small += progs[:200 if quick else 1500]
     full = dict(Users='{"u1", "u2"}', GenVals='{"g1", "g2", "g3"}', NewVals='{"n1", "n2"}', Unit=10, Amts='{5, 15, 37, 100}',
                 Period=4, MaxBlocks=16 if quick else 24, MaxTx=3, MaxTxTotal=30 if quick else 48, MRP=2, Fee=1000, Refund=300,
                 Threshold=1000, Wait=8, Delay=6, StaleSettle="TRUE", RefundAfterGasUsed="TRUE", DropRemovedRewards="TRUE",
                 Alphabet='"full"', GenMode='"leaf"')
-    num = 30 if quick else 400
+    num = 30 if quick else 250
     g2 = ctx.tlc_must("Staking", C07.cfg(full, "G"), name="G2_staking_histories", timeout=2400, simulate={"num": num},
                       depth=8 * full["MaxBlocks"] + 20, extra=["-aril", "3"])
     sim = [add_evidences(v["h"], rnd) for v in g2.printed if isinstance(v, dict) and v.get("kind") == "B"]
@@ -171,7 +181,7 @@ def run(ctx):
         if b:
             ctx.sample(b)
     # ---------------------------------------------------------------- T
-    judge(ctx, small, OPTS_SMALL, "small", expect, two_processes=not quick)
+    judge(ctx, small, OPTS_SMALL, "small", expect, two_processes=False)
     trace = judge(ctx, [b for _, bs, o in wit if not o for b in bs] + scen + sim, OPTS_DEFAULT, "default")
     for i, (f, bs, o) in enumerate(wit):
         if o:
